@@ -139,15 +139,20 @@ func (c14World) Run(prop string, ch *zsim.Choices, trace bool) *RunResult {
 			}
 		}
 		var lg zerolog.Logger
+		nested := false
 		if r.single {
 			lg = zerolog.New(ws[0])
+		} else if nd >= 3 && ch.Chance(1, 3) {
+			// a MultiLevelWriter inside a MultiLevelWriter: same fan-out, same first-failure rule
+			nested = true
+			lg = zerolog.New(zerolog.MultiLevelWriter(zerolog.MultiLevelWriter(ws[:2]...), zerolog.MultiLevelWriter(ws[2:]...)))
 		} else {
 			lg = zerolog.New(zerolog.MultiLevelWriter(ws...))
 		}
 		lg = lg.With().Str("svc", "x").Logger()
 		nTasks := 1 + ch.Weighted(3, 1)
 		faultRate := []int{0, 1, 2, 4}[ch.Intn(4)] // out of 6
-		summary = fmt.Sprintf("destinations=%d single=%v tasks=%d fault-rate=%d/6", nd, r.single, nTasks, faultRate)
+		summary = fmt.Sprintf("destinations=%d single=%v nested=%v tasks=%d fault-rate=%d/6", nd, r.single, nested, nTasks, faultRate)
 		var per [][]*c14Ev
 		n := 0
 		for t := 0; t < nTasks; t++ {
